@@ -159,3 +159,36 @@ func copyOver(e Expr, src []Point) {
 	v, _ := e.Eval()
 	copy(v.(Line).Points, src)
 }
+
+// simple is a sealed interface (unexported method): only Point and Line implement it, and both return
+// fresh memory from Swap, so the result of the dynamic call may be edited in place.
+type simple interface {
+	GeometryValue
+	simpleOnly()
+}
+
+func (Point) simpleOnly() {}
+func (Line) simpleOnly()  {}
+
+func editSwappedGood(e Expr) GeometryValue {
+	v, _ := e.Eval()
+	g := v.(simple).Swap()
+	if l, ok := g.(Line); ok {
+		for i := range l.Points {
+			l.Points[i].SRID = 0
+		}
+	}
+	return g
+}
+
+// the same edit on the result of the unsealed interface's Swap: one implementation (Poly) returns its receiver
+func editSwappedAny(e Expr) GeometryValue {
+	v, _ := e.Eval()
+	g := v.(GeometryValue).Swap()
+	if l, ok := g.(Line); ok {
+		for i := range l.Points {
+			l.Points[i].SRID = 0
+		}
+	}
+	return g
+}
